@@ -10,30 +10,32 @@ EXTENDS Integers, Sequences, FiniteSets, TLC
 
 CONSTANTS MaxRecs, MaxL, MaxW, FinalNL,
           MaxFetch,     \* intervals fetched one after the other in one batch
+          CRLF,         \* lines end in CR LF (two bytes) instead of LF
           BlankEnd      \* an empty line after the last record (a file that ends in two newlines)
 
 Rep(x, n) == [i \in 1..n |-> x]
+EOL == IF CRLF THEN <<<<"cr">>, <<"nl">>>> ELSE <<<<"nl">>>>
 RECURSIVE SeqLines(_, _, _, _)
 SeqLines(r, L, W, p) == IF p >= L THEN <<>>
-                        ELSE [i \in 1..(IF L - p < W THEN L - p ELSE W) |-> <<"b", r, p + i - 1>>] \o <<<<"nl">>>>
+                        ELSE [i \in 1..(IF L - p < W THEN L - p ELSE W) |-> <<"b", r, p + i - 1>>] \o EOL
                              \o SeqLines(r, L, W, p + W)
-RecordBytes(r, rec) == <<<<"gt">>>> \o Rep(<<"h", r>>, rec.hdr) \o <<<<"nl">>>> \o SeqLines(r, rec.L, rec.W, 0)
+RecordBytes(r, rec) == <<<<"gt">>>> \o Rep(<<"h", r>>, rec.hdr) \o EOL \o SeqLines(r, rec.L, rec.W, 0)
 RECURSIVE FileBytes(_, _)
 FileBytes(recs, r) == IF r > Len(recs) THEN <<>> ELSE RecordBytes(r, recs[r]) \o FileBytes(recs, r + 1)
-File(recs) == LET f == FileBytes(recs, 1) IN IF FinalNL THEN (IF BlankEnd THEN f \o <<<<"nl">>>> ELSE f) ELSE SubSeq(f, 1, Len(f) - 1)
+File(recs) == LET f == FileBytes(recs, 1) IN IF FinalNL THEN (IF BlankEnd THEN f \o EOL ELSE f) ELSE SubSeq(f, 1, Len(f) - Len(EOL))
 
 \* ---- L0: the index and the substring
 OffsetOf(recs, r) == CHOOSE o \in 0..Len(File(recs)) : File(recs)[o + 1] = <<"b", r, 0>>
-IndexRow(recs, r) == [length |-> recs[r].L, offset |-> OffsetOf(recs, r), lenc |-> recs[r].W, lenb |-> recs[r].W + 1]
+IndexRow(recs, r) == [length |-> recs[r].L, offset |-> OffsetOf(recs, r), lenc |-> recs[r].W, lenb |-> recs[r].W + Len(EOL)]
 Substring(r, a, b) == [i \in 1..(b - a) |-> <<"b", r, a + i - 1>>]
 
 \* the same offsets by arithmetic on the record descriptors alone (no bytes): usable for files of any size;
 \* TLC checks OffsetsAgree against the byte-level definition on every small configuration
-RecSize(rec) == 1 + rec.hdr + 1 + rec.L + ((rec.L + rec.W - 1) \div rec.W)        \* '>' header newline, bases, one newline per line
+RecSize(rec) == 1 + rec.hdr + Len(EOL) + rec.L + Len(EOL) * ((rec.L + rec.W - 1) \div rec.W)        \* '>' header line end, bases, one line end per line
 RECURSIVE SizeBefore(_, _)
 SizeBefore(rs, r) == IF r = 1 THEN 0 ELSE SizeBefore(rs, r - 1) + RecSize(rs[r - 1])
-OffsetArith(rs, r) == SizeBefore(rs, r) + 1 + rs[r].hdr + 1
-IndexRowArith(rs, r) == [length |-> rs[r].L, offset |-> OffsetArith(rs, r), lenc |-> rs[r].W, lenb |-> rs[r].W + 1]
+OffsetArith(rs, r) == SizeBefore(rs, r) + 1 + rs[r].hdr + Len(EOL)
+IndexRowArith(rs, r) == [length |-> rs[r].L, offset |-> OffsetArith(rs, r), lenc |-> rs[r].W, lenb |-> rs[r].W + Len(EOL)]
 
 \* ---- L1: byte arithmetic of get_interval_sequences (:176-200) and _get_interval_sequences_fast (:132-160)
 Read(f, from, n) == SubSeq(f, from + 1, IF from + n <= Len(f) THEN from + n ELSE Len(f))     \* seek + read
@@ -60,7 +62,7 @@ WholeL1(recs, r) ==
       n    == (row.length + row.lenc - 1) \div row.lenc
       nb   == (n - 1) * row.lenb + (row.length - (n - 1) * row.lenc)
       raw  == Read(File(recs), row.offset, nb)
-      dels == {k \in 0..(Len(raw) - 1) : k % row.lenb = row.lenc}
+      dels == {k \in 0..(Len(raw) - 1) : k % row.lenb >= row.lenc}
   IN DeleteAt(raw, dels)
 
 \* where the handle is put and how much is read for [a, b) of record r (the seek and the read of :190-197)
@@ -100,8 +102,9 @@ Next == WholeAny \/ FetchAny \/ Replace
 Spec == Init /\ [][Next]_vars
 
 OffsetsAgree == \A r \in DOMAIN recs : IndexRowArith(recs, r) = IndexRow(recs, r)
+WholeCorrect == last.op = "whole" => last.got = Substring(last.r, 0, recs[last.r].L)
 FetchCorrect == /\ last.op = "fetch" => last.got = Substring(last.r, last.a, last.b)
-                /\ last.op = "whole" => last.got = Substring(last.r, 0, recs[last.r].L)
+                /\ WholeCorrect
 \* a fetch starts where its own plan says, wherever the handle was
 SeeksItself == last.op = "fetch" => last.from = FetchPlan(recs, last.r, last.a, last.b).from
 \* the property restricted to what can be fetched without touching the unterminated end of the file
